@@ -1,1 +1,236 @@
-fn main() {}
+//! C02 driver: interoperability of the MPQ V1/V2 on-disk format with the TLA+ reference (MpqFormat.tla).
+//!
+//! Two modes (extra argument):
+//!   write  direction 1: build one archive per TLC-generated configuration with the library's
+//!          ArchiveBuilder and record the archive *bytes* plus what was put in (names, contents).
+//!          TLC (Read_MpqFormat) decodes the bytes with the reference reader.
+//!   read   direction 2: open the archives laid out by the reference writer (TLC evaluating RefWrite),
+//!          list them, read every file under four spellings, read absent names; record results.
+//! The driver never compares anything: Trace_MpqFormat.tla decides.
+use std::path::Path;
+use wow_mpq::compression::flags as cf;
+use wow_mpq::{Archive, ArchiveBuilder, FormatVersion, ListfileOption};
+use wverif_common::*;
+
+fn length_of(lc: &str, s: usize) -> usize {
+    match lc {
+        "0" => 0,
+        "1" => 1,
+        "7" => 7,
+        "S-1" => s - 1,
+        "S" => s,
+        "S+1" => s + 1,
+        "S+S/2" => s + s / 2,
+        "2S" => 2 * s,
+        "2S+9" => 2 * s + 9,
+        "3S+5" => 3 * s + 5,
+        _ => tool_error(&format!("unknown length class {lc}")),
+    }
+}
+
+fn method_of(m: &str) -> u8 {
+    match m {
+        "none" => 0,
+        "zlib" => cf::ZLIB,
+        "bzip2" => cf::BZIP2,
+        _ => tool_error(&format!("unknown method {m}")),
+    }
+}
+
+fn bytes_json(b: &[u8]) -> Value {
+    Value::Array(b.iter().map(|x| Value::from(*x)).collect())
+}
+
+fn outcome_str<T, E: std::fmt::Debug>(o: &Outcome<Result<T, E>>) -> String {
+    match o {
+        Outcome::Done(r) => res_class(r),
+        Outcome::Panic(_) => "panic".into(),
+        Outcome::Hang => "hang".into(),
+    }
+}
+
+// ------------------------------------------------------------------------------------------
+// direction 1: the library writes
+// ------------------------------------------------------------------------------------------
+fn mode_write(cases: &[Value], trace: &Trace) {
+    let seed = seed();
+    let scratch = Scratch::new("c02w");
+    for c in cases {
+        if gi(c, "dir") != 1 {
+            continue;
+        }
+        let id = gi(c, "id");
+        let ver = gi(c, "ver");
+        let shift = gi(c, "shift") as u16;
+        let ssize = 512usize << shift;
+        let lf = gs(c, "listfile");
+        let mut files_json = Vec::new();
+        let mut b = ArchiveBuilder::new()
+            .version(if ver == 0 { FormatVersion::V1 } else { FormatVersion::V2 })
+            .block_size(shift)
+            .default_compression(method_of(lf))
+            .listfile_option(ListfileOption::Generate);
+        for (fi, f) in ga(c, "files").iter().enumerate() {
+            let name = gs(f, "name");
+            let len = length_of(gs(f, "lc"), ssize);
+            let mut rng = Rng::derive(seed, &format!("c02w:{id}:{fi}"));
+            let data = gen_content(gs(f, "cc"), len, &mut rng);
+            let m = method_of(gs(f, "meth"));
+            files_json.push(json!({"name": name, "nb": bytes_json(name.as_bytes()), "len": len, "tok": tok(&data),
+                "data": bytes_json(&data), "meth": gs(f, "meth"), "enc": gs(f, "enc"), "lc": gs(f, "lc"), "cc": gs(f, "cc")}));
+            b = match gs(f, "enc") {
+                "plain" => b.add_file_data_with_options(data, name, m, false, 0),
+                "enc" => b.add_file_data_with_options(data, name, m, true, 0),
+                "fix" => b.add_file_data_with_encryption(data, name, m, true, 0),
+                e => tool_error(&format!("unknown enc {e}")),
+            };
+        }
+        let path = scratch.file(&format!("w{id}.mpq"));
+        let p2 = path.clone();
+        let o = guarded(move || b.build(&p2));
+        let res = outcome_str(&o);
+        let bytes = if res == "ok" { std::fs::read(&path).unwrap_or_default() } else { Vec::new() };
+        let _ = std::fs::remove_file(&path);
+        let absent = ["absent.txt", "Data\\File99.bin"];
+        trace.ev(json!({"ev":"Archive","case":id,"dir":1,"ver":ver,"shift":shift,"listfile":lf,"res":res,
+            "alen": bytes.len(), "bytes": bytes_json(&bytes), "files": files_json,
+            "absent": absent.iter().map(|a| json!({"name": a, "nb": bytes_json(a.as_bytes())})).collect::<Vec<_>>() }));
+    }
+}
+
+// ------------------------------------------------------------------------------------------
+// direction 2: the library reads what the reference wrote
+// ------------------------------------------------------------------------------------------
+fn spellings(name: &str) -> Vec<String> {
+    vec![
+        name.to_string(),
+        name.to_ascii_uppercase(),
+        name.to_ascii_lowercase(),
+        name.replace('\\', "/"),
+    ]
+}
+
+struct Opened {
+    res: String,
+    ar: Option<Archive>,
+}
+
+fn open_variant(path: &str) -> Opened {
+    if path.is_empty() {
+        return Opened { res: "none".into(), ar: None };
+    }
+    let p = path.to_string();
+    match guarded(move || Archive::open(Path::new(&p))) {
+        Outcome::Done(Ok(a)) => Opened { res: "ok".into(), ar: Some(a) },
+        Outcome::Done(Err(e)) => Opened { res: format!("err:{}", variant_name(&e)), ar: None },
+        Outcome::Panic(_) => Opened { res: "panic".into(), ar: None },
+        Outcome::Hang => Opened { res: "hang".into(), ar: None },
+    }
+}
+
+/// results of reading `name` under its four spellings: ([res], [len], [tok])
+fn read_all(o: &mut Opened, name: &str) -> Value {
+    let mut res = Vec::new();
+    let mut lens = Vec::new();
+    let mut toks = Vec::new();
+    for sp in spellings(name) {
+        match o.ar.as_mut() {
+            None => {
+                res.push("closed".to_string());
+                lens.push(-1i64);
+                toks.push(String::new());
+            }
+            Some(a) => match guarded(|| a.read_file(&sp)) {
+                Outcome::Done(Ok(d)) => {
+                    res.push("ok".into());
+                    lens.push(d.len() as i64);
+                    toks.push(tok(&d));
+                }
+                Outcome::Done(Err(wow_mpq::Error::FileNotFound(_))) => {
+                    res.push("notfound".into());
+                    lens.push(-1);
+                    toks.push(String::new());
+                }
+                Outcome::Done(Err(e)) => {
+                    res.push(format!("err:{}", variant_name(&e)));
+                    lens.push(-1);
+                    toks.push(String::new());
+                }
+                Outcome::Panic(_) => {
+                    res.push("panic".into());
+                    lens.push(-1);
+                    toks.push(String::new());
+                }
+                Outcome::Hang => {
+                    res.push("hang".into());
+                    lens.push(-1);
+                    toks.push(String::new());
+                }
+            },
+        }
+    }
+    json!({"res": res, "len": lens, "tok": toks})
+}
+
+fn list_of(o: &mut Opened) -> Value {
+    match o.ar.as_mut() {
+        None => json!({"res": "closed", "names": [], "sizes": []}),
+        Some(a) => match guarded(|| a.list()) {
+            Outcome::Done(Ok(es)) => {
+                let mut v: Vec<(String, u64)> = es.into_iter().map(|e| (e.name, e.size)).collect();
+                v.sort();
+                json!({"res": "ok", "names": v.iter().map(|x| x.0.clone()).collect::<Vec<_>>(),
+                       "sizes": v.iter().map(|x| x.1).collect::<Vec<_>>()})
+            }
+            Outcome::Done(Err(e)) => json!({"res": format!("err:{}", variant_name(&e)), "names": [], "sizes": []}),
+            Outcome::Panic(_) => json!({"res": "panic", "names": [], "sizes": []}),
+            Outcome::Hang => json!({"res": "hang", "names": [], "sizes": []}),
+        },
+    }
+}
+
+fn mode_read(cases: &[Value], trace: &Trace) {
+    // a wrong key makes the library read garbage sector offsets and allocate up to 4 GB per attempt:
+    // two threads only; events are written in case order afterwards (deterministic trace)
+    let slots: Vec<std::sync::Mutex<Vec<Value>>> = cases.iter().map(|_| std::sync::Mutex::new(Vec::new())).collect();
+    par_for(cases.len(), 2, |ci| {
+        let c = &cases[ci];
+        let id = gi(c, "case");
+        let mut evs = Vec::new();
+        evs.push(json!({"ev":"Reset","case":id,"dir":2,"ver":gi(c,"ver"),"shift":gi(c,"shift"),
+            "names": c["names"].clone(), "lens": c["lens"].clone(), "toks": c["toks"].clone(),
+            "cfg": c["cfg"].clone()}));
+        let mut std = open_variant(gs(c, "std"));
+        let mut lib = open_variant(gs(c, "lib"));
+        evs.push(json!({"ev":"Open","case":id,"std":std.res,"lib":lib.res}));
+        evs.push(json!({"ev":"List","case":id,"listlabels":gs(c,"listlabels"),"std":list_of(&mut std),"lib":list_of(&mut lib)}));
+        let labels = ga(c, "labels");
+        for (i, n) in ga(c, "names").iter().enumerate() {
+            let name = n.as_str().unwrap_or("");
+            evs.push(json!({"ev":"Read","case":id,"name":name,"labels":labels[i].clone(),
+                "std":read_all(&mut std, name),"lib":read_all(&mut lib, name)}));
+        }
+        for a in ga(c, "absent") {
+            let name = a.as_str().unwrap_or("");
+            evs.push(json!({"ev":"Absent","case":id,"name":name,"std":read_all(&mut std, name),"lib":read_all(&mut lib, name)}));
+        }
+        evs.push(json!({"ev":"Done","case":id}));
+        *slots[ci].lock().unwrap() = evs;
+    });
+    for s in slots {
+        trace.block(s.into_inner().unwrap());
+    }
+}
+
+fn main() {
+    let a = args();
+    install_quiet_panic_hook();
+    let cases = read_cases(&a.cases);
+    let trace = Trace::create(&a.trace);
+    match a.extra.first().map(|s| s.as_str()) {
+        Some("write") => mode_write(&cases, &trace),
+        Some("read") => mode_read(&cases, &trace),
+        _ => tool_error("usage: c02 <cases> <trace> write|read"),
+    }
+    trace.flush();
+}
